@@ -475,8 +475,7 @@ def b_sorted(ex, e, st):
         q = ex.seq_of(st, v)
     else:
         raise OutOfSubset('sorted() of %s' % v.ty)
-    cmp_ok = z3.Function('sortable', SeqV, z3.BoolSort())
-    ex.raise_if(st, z3.Not(cmp_ok(q)), 'TypeError', 'safe/sorted-comparable', e)
+    ex.raise_if(st, z3.Not(SORTABLE(q)), 'TypeError', 'safe/sorted-comparable', e)
     r = z3.Const(fresh_name('sorted'), SeqV)
     i = z3.Int(fresh_name('si'))
     st.assume(z3.Length(r) == z3.Length(q))
@@ -487,10 +486,29 @@ def b_sorted(ex, e, st):
     return ex.new_list(st, r, 'list')
 
 
+SORTABLE = z3.Function('sortable', SeqV, z3.BoolSort())     # the elements are mutually comparable (sorted() does not raise TypeError)
+
+
+def sp_sortable_keys(ex, e, st):
+    d = ex.ev(e.args[0], st)
+    return Val(mk_b(SORTABLE(z3.Select(ex.harr(st, '$dkeys'), rv(d.t)))), 'bool')
+
+
+def sp_printable(ex, e, st):
+    # printable(ch): the YAML printable set, written from the YAML 1.1 specification (c-printable)
+    v = ex.ev(e.args[0], st)
+    c = z3.StrToCode(sv(v.t))
+    from .symex import squash_char as q
+    ok = z3.Or(c == 9, c == 10, c == 13, z3.And(c >= 0x20, c <= 0x7E), c == 0x85, z3.And(c >= 0xA0, c <= 0xD7FF), z3.And(c >= 0xE000, c <= 0xFFFD),
+               z3.And(c >= q(0x10000), c <= q(0x10FFFF)))
+    return Val(mk_b(ok), 'bool')
+
+
 def sp_prefix_of(ex, e, st):
     a = ex.ev(e.args[0], st)
     b = ex.ev(e.args[1], st)
-    return Val(mk_b(z3.PrefixOf(ex.seq_of(st, a), ex.seq_of(st, b))), 'bool')
+    sa, sb = ex.seq_of(st, a), ex.seq_of(st, b)
+    return Val(mk_b(z3.And(z3.Length(sa) <= z3.Length(sb), sb == z3.Concat(sa, z3.Extract(sb, z3.Length(sa), z3.Length(sb) - z3.Length(sa))))), 'bool')
 
 
 def sp_seq_contains(ex, e, st):
@@ -501,7 +519,7 @@ def sp_seq_contains(ex, e, st):
     return Val(mk_b(z3.Contains(z3.Extract(a, lo, z3.Length(a) - lo), z3.Unit(x.t))), 'bool')
 
 
-SPEC_FUNCS.update({'prefix_of': sp_prefix_of, 'seq_contains': sp_seq_contains})
+SPEC_FUNCS.update({'printable': sp_printable, 'sortable_keys': sp_sortable_keys, 'prefix_of': sp_prefix_of, 'seq_contains': sp_seq_contains})
 
 
 def b_next(ex, e, st):
@@ -680,10 +698,10 @@ def m_bytes(ex, recv, name, e, st):
     s_ = yv(recv.t)
     args = [ex.ev(a, st) for a in e.args]
     used('bytes.' + name)
-    if name == 'startswith':
+    if name in ('startswith', 'endswith'):
         a = args[0]
         pref = yv(a.t) if a.ty == 'bytes' else V.yv(a.t)
-        return Val(mk_b(z3.PrefixOf(pref, s_)), 'bool')
+        return Val(mk_b(z3.PrefixOf(pref, s_) if name == 'startswith' else z3.SuffixOf(pref, s_)), 'bool')
     if name == 'decode':
         okf = z3.Function('bytes_decode_ok', z3.StringSort(), V, z3.BoolSort())
         f = z3.Function('bytes_decode', z3.StringSort(), V, z3.StringSort())
@@ -715,10 +733,23 @@ def call_method(ex, recv, name, e, st):
         return m_bytes(ex, recv, name, e, st)
     if ty == 'tuple' and name in ('index', 'count'):
         return m_list(ex, recv, name, e, st)
+    if ty is None and name in ('start', 'group', 'end') and ex.quick_unsat(st.pc, z3.Not(z3.And(is_r(recv.t), typ(rv(recv.t)) == BUILTIN_TYPES['match']))):
+        return re_match_method(ex, recv, name, e, st)
     if ty is None and name in ('keys', 'items', 'values', 'get', 'copy', 'setdefault'):
         isd = z3.And(is_r(recv.t), typ(rv(recv.t)) == 2)
         ex.raise_if(st, z3.Not(isd), 'AttributeError', 'safe/dict-method-' + name, e)
         return m_dict(ex, Val(recv.t, 'dict'), name, e, st)
+    if ty is None and name in ('read', 'write', 'flush') and ('stream', name) in REG.externs:
+        ok = z3.And(is_r(recv.t), typ(rv(recv.t)) == BUILTIN_TYPES['stream'])
+        ex.raise_if(st, z3.Not(ok), 'AttributeError', 'safe/stream-method-' + name, e)
+        args = [ex.ev(a, st) for a in e.args]
+        return apply_contract(ex, REG.externs[('stream', name)], None, Val(recv.t, 'stream'), args, kwargs_of(e), e, st, pnames=None)
+    if ty is None and name == 'startswith' and ex.quick_unsat(st.pc, z3.Not(is_y(recv.t))):
+        return m_bytes(ex, Val(recv.t, 'bytes'), name, e, st)
+    if ty == 'pattern' and name in ('search', 'match'):
+        return re_search(ex, recv, name, e, st)
+    if ty == 'match' and name in ('start', 'group', 'end'):
+        return re_match_method(ex, recv, name, e, st)
     if ty is None and name in STR_METHODS:
         # dynamic receiver: a str method on a non-str raises AttributeError
         ex.raise_if(st, z3.Not(is_s(recv.t)), 'AttributeError', 'safe/str-method-' + name, e)
@@ -737,6 +768,80 @@ def call_method(ex, recv, name, e, st):
             callee = ex.get_field(st, recv, name, e)
             return call_value(ex, callee, e, st)
     raise OutOfSubset('method %s on receiver of static type %s (line %d)' % (name, ty, e.lineno))
+
+
+def charclass_pred(src):
+    """for a pattern that is ONE character class: python predicate code -> z3 Bool 'the code point is matched'; else None"""
+    import re._parser as sre
+    try:
+        p = sre.parse(src)
+    except Exception:
+        return None
+    if len(p) != 1:
+        return None
+    op, av = p[0]
+    items, negate = None, False
+    if str(op) == 'IN':
+        items = list(av)
+        if items and str(items[0][0]) == 'NEGATE':
+            negate, items = True, items[1:]
+    elif str(op) == 'LITERAL':
+        items = [(op, av)]
+    elif str(op) == 'NOT_LITERAL':
+        items, negate = [('LITERAL', av)], True
+    if items is None:
+        return None
+    from .symex import squash_char
+
+    def pred(code):
+        alts = []
+        for o, a in items:
+            if str(o) == 'LITERAL':
+                alts.append(code == squash_char(a))
+            elif str(o) == 'RANGE':
+                alts.append(z3.And(code >= squash_char(a[0]), code <= squash_char(a[1])))
+            else:
+                return None
+        r = z3.Or(*alts) if alts else z3.BoolVal(False)
+        return z3.Not(r) if negate else r
+    return pred
+
+
+RE_START = z3.Function('re_search_start', z3.IntSort(), z3.StringSort(), z3.IntSort())    # first match position of pattern in text, -1 if none
+
+
+def re_search(ex, recv, name, e, st):
+    """assumed contract of Pattern.search for single-character-class patterns: the result is None when no character of the text
+    is in the class, else a match object whose start() is the FIRST such position and whose group() is that character"""
+    n = ex._const_int(rv(recv.t))
+    src = getattr(ex.w, 'patterns', {}).get(n)
+    pred = charclass_pred(src) if src is not None and name == 'search' else None
+    if pred is None:
+        raise OutOfSubset('re.%s on a pattern that is not a single character class (line %d)' % (name, e.lineno))
+    used('re.Pattern.search (single character class %r): first position whose character is in the class' % src)
+    arg = ex.ev(e.args[0], st)
+    ex.need_type(st, arg, is_s, 're-search', e)
+    s_ = sv(arg.t)
+    r = RE_START(rv(recv.t), s_)
+    j = z3.Int(fresh_name('rj'))
+    code = lambda i: z3.StrToCode(z3.SubString(s_, i, 1))
+    st.assume(z3.And(r >= -1, r < z3.Length(s_)))
+    st.assume(z3.Implies(r >= 0, pred(code(r))))
+    st.assume(z3.ForAll([j], z3.Implies(z3.And(0 <= j, j < z3.If(r >= 0, r, z3.Length(s_))), z3.Not(pred(code(j))))))
+    m = ex.new_obj(st, 'match')
+    st.heap['f:m_start'] = z3.Store(ex.harr(st, 'f:m_start'), rv(m), mk_i(r))
+    st.heap['f:m_text'] = z3.Store(ex.harr(st, 'f:m_text'), rv(m), arg.t)
+    return Val(z3.If(r >= 0, m, NONE), 'opt:match' if False else None, elems='match?')
+
+
+def re_match_method(ex, recv, name, e, st):
+    start = iv(z3.Select(ex.harr(st, 'f:m_start'), rv(recv.t)))
+    text = sv(z3.Select(ex.harr(st, 'f:m_text'), rv(recv.t)))
+    if name == 'start':
+        return Val(mk_i(start), 'int')
+    if name == 'end':
+        return Val(mk_i(start + 1), 'int')
+    return Val(mk_s(z3.SubString(text, start, 1)), 'char')
 
 
 def call_value(ex, callee, e, st):
